@@ -25,6 +25,22 @@ def cases(tier):
                                   {'rp': 'p'}):
       c['ir']['x'] = xs
       yield c
+  # constants with identical bytes (all-zero / all-equal pools) and float
+  # models that already store their constants outside the flatbuffer
+  for wk in ('zero', 'const'):
+    for a, b in ((('FULLY_CONNECTED', 'bias'), ('FULLY_CONNECTED', 'bias')),
+                 (('CONV_2D', '1x1'), ('CONV_2D', '1x1')),
+                 (('ADD', 'tc'), ('MUL', 'tc')),
+                 (('FULLY_CONNECTED', 'nobias'), ('EMBEDDING_LOOKUP', 'w4'))):
+      for chain in (0, 1):
+        ops = [irm.op(a[0], a[1], [0] * irm.arity(*a), wk=wk),
+               irm.op(b[0], b[1], [chain if irm.arity(*b) else 0] *
+                      irm.arity(*b), wk=wk)]
+        yield {'ir': irm.single(ops), 'rp': 'p'}
+  for c in universe.graph_cases([(1, irm.WEIGHT_OPS + ('ADD', 'TANH'), 'all',
+                                  'none')], {'rp': 'p'}):
+    c['ir']['external'] = True
+    yield c
   yield from universe.graph_cases(
       [(2, eg.T21 + eg.U, 'first' if tier == 'quick' else 'all', 'one')],
       {'rp': 'q2' if tier == 'quick' else 'p'})
